@@ -71,6 +71,9 @@ func main() {
 		{"lib/os/glob.go", "glob", "osGlobBody"},
 		{"project.go", "Project.ignored", "ignoredBody"},
 		{"project.go", "Project.loadPackage", "loadPackageBody"},
+		{"project.go", "Project.Watch", "watchBody"},
+		{"function.go", "function.newThread", "newThreadBody"},
+		{"util/cwd.go", "Getwd", "getwdBody"},
 	} {
 		uf, err := lib.Parse(*repo, u.file)
 		if err != nil {
